@@ -27,7 +27,7 @@ def _same_note(symx, N, got, m):
     return c
 
 
-def ob_roundtrip(n, ncols, same, join, ohead, otail, upol, kindset=5, shard=None, budget_s=120):
+def ob_roundtrip(n, ncols, same, join, ohead, otail, upol, kindset=5, shard=None, include="all", budget_s=120):
     """ungroup(group(stream)) == the included notes minus exactly the notes the orphan options drop, in the original order
     (per-type grouping: same multiset with beats non-decreasing)"""
     import z3
@@ -37,10 +37,17 @@ def ob_roundtrip(n, ncols, same, join, ohead, otail, upol, kindset=5, shard=None
     def run():
         if shard is not None:   # this obligation covers the streams whose first note has kind number `shard`
             symx.CTL.assume(z3.Int("kind0") == shard)
-        notes, meta = nc.gen_notes(symx, mods, n, ncols, nc.kindlist(kindset, N.NoteType))
+        kinds = nc.kindlist(kindset, N.NoteType)
+        inc = None
+        if include == "subsets":   # include_note_types: every subset of the kinds, by solver-guided case split
+            idx = symx.choose("inc", 2 ** len(kinds))
+            inc = tuple(k for i, k in enumerate(kinds) if (idx >> i) & 1)
+        notes, meta = nc.gen_notes(symx, mods, n, ncols, kinds)
         kw = dict(same_beat_notes=G.SameBeatNotes[same], join_heads_to_tails=join,
                   orphaned_head=G.OrphanedNotes[ohead], orphaned_tail=G.OrphanedNotes[otail])
-        st, groups = nc.reference_group(symx, meta, None, same, join, ohead, otail)
+        if inc is not None:
+            kw["include_note_types"] = frozenset(N.NoteType[k] for k in inc)
+        st, groups = nc.reference_group(symx, meta, inc, same, join, ohead, otail)
         try:
             grouped = list(G.group_notes(notes, **kw))
         except G.OrphanedNoteException:
@@ -201,6 +208,36 @@ def ob_inside_two_holds(upol, budget_s=200):
     return symx.explore(run, budget_s=budget_s)
 
 
+def ob_tail_in_row(upol, budget_s=200):
+    """hand-built grouped sequence: a joined hold on column 1 and a later group holding two plain notes on columns 0 and 2 (one
+    beat, as JOIN_ALL produces): wherever the regenerated tail falls - before, after or exactly on that group's beat, i.e.
+    between its two notes - the ungrouped stream is in (beat, column) order and contains exactly head, tail and both notes"""
+    import z3
+    symx, mods = _setup()
+    G = mods["simfile.notes.group"]; N = mods["simfile.notes"]; T = mods["simfile.timing"]
+
+    def run():
+        hb, tb, nb = z3.Real("hb"), z3.Real("tb"), z3.Real("nb")
+        symx.CTL.assume(hb >= 0, tb > hb, nb > hb)
+        symx.require_feasible()
+        grouped = [[G.NoteWithTail(beat=T.Beat(symx.FracShim(hb)), column=1, note_type=N.NoteType.HOLD_HEAD, tail_beat=T.Beat(symx.FracShim(tb)))],
+                   [N.Note(beat=T.Beat(symx.FracShim(nb)), column=0, note_type=N.NoteType.TAP),
+                    N.Note(beat=T.Beat(symx.FracShim(nb)), column=2, note_type=N.NoteType.MINE)]]
+        try:
+            back = list(G.ungroup_notes(grouped, orphaned_notes=G.OrphanedNotes[upol]))
+        except G.OrphanedNoteException:
+            return False, ("raised although no note lies on the hold's column",)
+        kinds = sorted(x.note_type.name for x in back)
+        if kinds != ["HOLD_HEAD", "MINE", "TAIL", "TAP"]:
+            return False, ("notes added or lost", kinds)
+        conds = []
+        for a, b in zip(back, back[1:]):
+            ab, bb = symx.zr(symx.term_of(a.beat)), symx.zr(symx.term_of(b.beat))
+            conds.append(z3.Or(ab < bb, z3.And(ab == bb, z3.BoolVal(a.column < b.column))))
+        return z3.And(*conds), ("tail in row", upol)
+    return symx.explore(run, budget_s=budget_s)
+
+
 def ob_many_holds(k, upol, budget_s=200):
     """hand-built grouped sequence with k holds open at once (columns 0..k-1, symbolic tail beats in any order) followed by a
     plain note on another column: the ungrouped stream is position sorted and contains exactly heads, tails and the note"""
@@ -261,6 +298,14 @@ def obligations(tier):
                                     args=(n, 2, same, join, oh, ot, up), budget_s=b,
                                     bounds=f"{n} notes, 2 columns, 5 kinds, symbolic beats with all tie patterns, head keysounds symbolic, tails without keysound"))
     # every member of the NoteType enum (read from the source at run time) as a note kind
+    # include_note_types over every subset of the five kinds (2 notes): only the included types come back
+    for oh, ot in (("KEEP_ORPHAN", "KEEP_ORPHAN"), ("DROP_ORPHAN", "DROP_ORPHAN"), ("KEEP_ORPHAN", "DROP_ORPHAN"), ("RAISE_EXCEPTION", "RAISE_EXCEPTION")):
+        obs.append(dict(name=f"roundtrip n=2 include=subsets KEEP_SEPARATE join=True head={oh} tail={ot} ungroup=RAISE_EXCEPTION", func="ob_roundtrip",
+                        args=(2, 2, "KEEP_SEPARATE", True, oh, ot, "RAISE_EXCEPTION", 5, None, "subsets"), budget_s=b,
+                        bounds="2 notes, 2 columns, 5 kinds, include_note_types = every subset of the kinds by case split"))
+    obs.append(dict(name="roundtrip n=2 include=subsets JOIN_ALL join=False ungroup=KEEP_ORPHAN", func="ob_roundtrip",
+                    args=(2, 2, "JOIN_ALL", False, "KEEP_ORPHAN", "KEEP_ORPHAN", "KEEP_ORPHAN", 5, None, "subsets"), budget_s=b,
+                    bounds="2 notes, 2 columns, 5 kinds, include_note_types = every subset of the kinds by case split, no joining"))
     from simfile.notes import NoteType as _NT
     allk = nc.kinds_all(_NT)
     for same in nc.SAME:
@@ -275,6 +320,9 @@ def obligations(tier):
     for up in nc.POL:
         obs.append(dict(name=f"inside_two_holds ungroup={up}", func="ob_inside_two_holds", args=(up,), budget_s=b,
                         bounds="two NoteWithTail on columns 0 and 1 (symbolic beats, any overlap) + a tap on either column (symbolic beat)"))
+    for up in nc.POL:
+        obs.append(dict(name=f"tail_in_row ungroup={up}", func="ob_tail_in_row", args=(up,), budget_s=b,
+                        bounds="one NoteWithTail on column 1 (symbolic head/tail beats) + a group of two notes on columns 0 and 2 at a symbolic beat (before, after or on the tail's beat)"))
     for up in nc.POL:
         obs.append(dict(name=f"inside_hold ungroup={up}", func="ob_inside_hold", args=(up,), budget_s=b,
                         bounds="one NoteWithTail (symbolic head/tail beats, keysound) + one plain note (symbolic beat, 2 columns, 3 kinds), both row layouts"))
@@ -294,9 +342,14 @@ def replay(data):
     g = lambda k, d="0": Fraction(m.get(k, d))
     if data["func"] == "ob_roundtrip":
         n, ncols, same, join, oh, ot, up = a[:7]
-        notes = nc.model_notes(m, n, ncols, nc.kindlist(a[7] if len(a) > 7 else 5, NoteType))
+        kinds = nc.kindlist(a[7] if len(a) > 7 else 5, NoteType)
+        notes = nc.model_notes(m, n, ncols, kinds)
         kw = dict(same_beat_notes=G.SameBeatNotes[same], join_heads_to_tails=join, orphaned_head=G.OrphanedNotes[oh], orphaned_tail=G.OrphanedNotes[ot])
-        st, groups = nc.concrete_reference(notes, None, same, join, oh, ot)
+        inc = None
+        if len(a) > 9 and a[9] == "subsets":
+            inc = tuple(k for i, k in enumerate(kinds) if (int(m.get("inc", 0)) >> i) & 1)
+            kw["include_note_types"] = frozenset(NoteType[k] for k in inc)
+        st, groups = nc.concrete_reference(notes, inc, same, join, oh, ot)
         try:
             grouped = list(G.group_notes(notes, **kw))
         except G.OrphanedNoteException:
@@ -321,6 +374,16 @@ def replay(data):
         else:
             bad = back != exp
         return bad, f"ungroup(group({notes}, {kw}), {up}) = {back}; expected {exp}"
+    if data["func"] == "ob_tail_in_row":
+        up = a[0]
+        grouped = [[G.NoteWithTail(beat=Beat(g("hb")), column=1, note_type=NoteType.HOLD_HEAD, tail_beat=Beat(g("tb")))],
+                   [Note(beat=Beat(g("nb")), column=0, note_type=NoteType.TAP), Note(beat=Beat(g("nb")), column=2, note_type=NoteType.MINE)]]
+        try:
+            back = list(G.ungroup_notes(grouped, orphaned_notes=G.OrphanedNotes[up]))
+        except G.OrphanedNoteException as e:
+            return True, f"ungroup_notes({grouped}, {up}) raised {e!r}"
+        bad = sorted(back, key=lambda x: (x.beat, x.column)) != back or len(back) != 4
+        return bad, f"ungroup_notes({grouped}, {up}) = {back}: not in (beat, column) order or notes lost"
     if data["func"] == "ob_inside_two_holds":
         up = a[0]; ncol = int(g("ncol"))
         grouped = [[G.NoteWithTail(beat=Beat(g("h0")), column=0, note_type=NoteType.HOLD_HEAD, tail_beat=Beat(g("t0")))],
